@@ -69,16 +69,18 @@ def containsSub (s sub : Bytes) : Bool :=
   | [] => sub.isEmpty
   | _ :: t => isPrefixOf sub s || containsSub t sub
 
-/-- `strings.ReplaceAll(s, old, new)` for non-empty `old`: left to right, non overlapping -/
+/-- the loop of `strings.ReplaceAll(s, old, new)` for non-empty `old` (left to right, non
+    overlapping); `skip` counts the bytes of a match that still have to be passed over -/
+def replaceGo (old new : Bytes) : Nat → Bytes → Bytes
+  | _, [] => []
+  | skip + 1, _ :: t => replaceGo old new skip t
+  | 0, c :: t =>
+    if isPrefixOf old (c :: t) then new ++ replaceGo old new (old.length - 1) t
+    else c :: replaceGo old new 0 t
+
+/-- `strings.ReplaceAll(s, old, new)` for non-empty `old` -/
 def replaceAll (s old new : Bytes) : Bytes :=
-  if old.isEmpty then s else go s.length s
-where
-  go : Nat → Bytes → Bytes
-  | 0, s => s
-  | fuel + 1, s =>
-    match s with
-    | [] => []
-    | c :: t => if isPrefixOf old s then new ++ go fuel (s.drop old.length) else c :: go fuel t
+  if old.isEmpty then s else replaceGo old new 0 s
 
 def hexDigit (n : Nat) : Char :=
   if n < 10 then Char.ofNat (48 + n) else Char.ofNat (87 + n)
